@@ -485,13 +485,23 @@ func c10Run(c *c10Case, env *fw.Env, v *fw.V) {
 	}
 	for guard := 0; guard < 12; guard++ {
 		var r *drive.Req
+		left := 0
 		for _, p := range in.Pending() {
 			if p.Act != "th" {
 				r = p
+				left++
 			}
 		}
 		if r == nil {
 			break
+		}
+		// an exception path (or the normal one) still waits for an answer: its token is a token of the instance
+		// like any other, completion must not have been reported (the paths are finished latest request first,
+		// so exception paths regularly outlive the normal one here)
+		if k := in.Count("CeaseFlow", ""); k > 0 {
+			v.Violate("complete-while-path-pending", hostCls, "%d cease-flow trace(s) while %d request(s) on the exception/normal paths are unanswered (next %s); history %v", k, left, r.Act, c.Hist)
+			fail()
+			return
 		}
 		if strings.HasPrefix(r.Act, "tx") {
 			// a task on the exception flow answered with its declared result
